@@ -155,6 +155,7 @@ def main(module_name: str) -> int:
     parser.add_argument("--replay", default=None)
     parser.add_argument("--workers", type=int, default=int(os.environ.get("VERIF_WORKERS", "0")) or _default_workers())
     parser.add_argument("--max-seconds", type=float, default=None)
+    parser.add_argument("--only", default=None, help="debugging: keep only work items whose JSON text contains this substring")
     args = parser.parse_args(sys.argv[2:])
     seed = int(os.environ.get("VERIF_SEED", "0"))
     if os.environ.get("PYTHONHASHSEED") != "0":
@@ -172,6 +173,9 @@ def main(module_name: str) -> int:
     if items:
         k = seed % len(items)
         items = items[k:] + items[:k]
+    if args.only:
+        items = [i for i in items if args.only in json.dumps(i, sort_keys=True)]
+        print(f"--only: {len(items)} work items kept (a partial run: not evidence for the property)")
     budget = args.max_seconds or getattr(module, "BUDGET_S", {}).get(args.tier)
     total = Result()
     done = 0
